@@ -208,6 +208,9 @@ class DatasetSpec(object):
             f.write('hp_filtered = %r\n' % bool(self.hp_filtered))
             if self.notes.get('template_scaling'):
                 f.write('template_scaling = %r\n' % float(self.notes['template_scaling']))
+            for key in ('amplitude_threshold', 'n_closest_channels'):     # rarely set model-level options
+                if self.notes.get(key) is not None:
+                    f.write('%s = %r\n' % (key, self.notes[key]))
         return d / 'params.py'
 
     def describe(self):
@@ -310,6 +313,8 @@ def random_spec(rng, **o):
     s.templates = T
     if g('sparse_templates', False):
         nloc = min(nc, g('tnloc', int(rng.integers(2, 5))))
+        if g('sparse_identity', False):
+            nloc = nc
         Ts = np.zeros((nt, nsw, nloc), dtype=T.dtype)
         ind = np.zeros((nt, nloc), dtype=np.int64)
         for t in range(nt):
@@ -317,13 +322,15 @@ def random_spec(rng, **o):
             pk = int(np.argmax(ptp))
             others = [c for c in rng.permutation(nc).tolist() if c != pk][:nloc - 1]
             chans = [pk] + others
+            if g('sparse_identity', False):
+                chans = list(range(nc))      # KS2 style: every channel stored, trivial column table
             ind[t] = chans
             Ts[t] = T[t][:, chans]
-            if nloc >= 3 and rng.random() < 0.5:     # an unused trailing column
+            if nloc >= 3 and rng.random() < 0.5 and not g('sparse_identity', False):     # an unused trailing column
                 ind[t, -1] = -1
                 Ts[t, :, -1] = 0
             if nloc >= 3 and rng.random() < 0.3:     # a signal-free stored channel
-                Ts[t, :, 1] = 0
+                Ts[t, :, 1 if chans[1] != pk else 2] = 0
         s.templates = Ts
         s.template_ind = ind.astype(g('dtype_ind', 'int32'))
     if g('wm', True):
